@@ -319,7 +319,8 @@ def run_case(case, delta):
     labels = Interner()
     blocks = Blocks()
     rec = Recorder(progfiles, labels, blocks)
-    nss, funcs = load_program(prog, {'tick': rec.tick, 'prof': rec})
+    inner = case.get('inner_snaps', True)
+    nss, funcs = load_program(prog, {'tick': rec.tick, 'prof': rec, 'snap': (rec.snapshot if inner else (lambda: None))})
     rec.declare(funcs)
     rec.ops.append('delta %d' % (delta if with_time else 0))
     resA = run_steps(prog, steps, rec, nss, funcs, rec.snapshot)
@@ -335,16 +336,16 @@ def run_case(case, delta):
     CLIB.verif_clock_set(0)
     CLIB.verif_clock_mode(1 if with_time else 0, delta)
     realtick = CLIB.verif_clock_advance
-    nssB, funcsB = load_program(prog, {'tick': realtick, 'prof': p})
+    snaps = []
+
+    def snap():
+        snaps.append('stats ' + canon_stats(p.get_stats().timings, labelsB, with_time))
+    nssB, funcsB = load_program(prog, {'tick': realtick, 'prof': p, 'snap': (snap if inner else (lambda: None))})
     for i, (fname, name, fn) in enumerate(funcsB):
         c = fn.__code__
         blocksB.blk(c.co_code)
         labelsB.get((c.co_filename, c.co_firstlineno, c.co_name))
-    snaps = []
     blks = []
-
-    def snap():
-        snaps.append('stats ' + canon_stats(p.get_stats().timings, labelsB, with_time))
 
     def on_add(fn):
         blks.append('blk %d %d' % blocksB.blk(fn.__code__.co_code))
